@@ -17,6 +17,10 @@ import (
 	"golang.org/x/tools/go/ssa"
 )
 
+// allocPanic ends a path on which the size of an allocation is controlled by symbolic input
+// beyond 2^20 elements: reported as violation kind "alloc".
+type allocPanic struct{ msg string }
+
 type continuation int
 
 const (
@@ -115,6 +119,9 @@ func (fr *frame) runDefer(d *deferred) {
 			r := recover()
 			if pa, isAbort := r.(pathAbort); isAbort {
 				panic(pa)
+			}
+			if ap, isAlloc := r.(allocPanic); isAlloc {
+				panic(ap)
 			}
 			fr.panicking = true
 			fr.panic = r
@@ -263,10 +270,29 @@ func visitInstr(fr *frame, instr ssa.Instruction) continuation {
 		*addr = zero(deref(instr.Type()))
 
 	case *ssa.MakeSlice:
-		c := m.intArg(fr.get(instr.Cap))
-		l := m.intArg(fr.get(instr.Len))
-		if l < 0 || c < l || c > 1<<24 {
-			if c > 1<<24 && l >= 0 && c >= l {
+		capV, lenV := fr.get(instr.Cap), fr.get(instr.Len)
+		for _, sv := range []value{capV, lenV} {
+			if sy, ok := sv.(*Sym); ok {
+				// a symbolic size: negative or huge is a path of its own
+				tt := sy.T
+				if tt.W != 64 {
+					tt = m.F.Resize(tt, 64, kindSigned(sy.K))
+				}
+				okT := m.F.And(m.F.Cmp(OpSle, m.F.Const(0, 64), tt), m.F.Cmp(OpSle, tt, m.F.Const(1<<20, 64)))
+				if !m.decide(okT) {
+					// prefer a witness the native replay can observe without exhausting memory
+					big := m.F.And(m.F.Cmp(OpSlt, m.F.Const(1<<20, 64), tt), m.F.Cmp(OpSle, tt, m.F.Const(1<<28, 64)))
+					if m.check(big) == Sat {
+						m.S.Assert(big)
+					}
+					panic(allocPanic{"allocation size controlled by input: more than 2^20 elements (or negative)"})
+				}
+			}
+		}
+		c := m.intArg(capV)
+		l := m.intArg(lenV)
+		if l < 0 || c < l || c > 1<<26 {
+			if c > 1<<26 && l >= 0 && c >= l {
 				panic(fmt.Sprintf("symgo: allocation of %d elements exceeds the allocation budget", c))
 			}
 			panic("runtime error: makeslice: len out of range")
@@ -462,6 +488,9 @@ func runFrame(fr *frame) {
 		r := recover()
 		if pa, ok := r.(pathAbort); ok {
 			panic(pa)
+		}
+		if ap, ok := r.(allocPanic); ok {
+			panic(ap)
 		}
 		if s, ok := r.(string); ok && strings.HasPrefix(s, "symgo:") {
 			if os.Getenv("VERIF_DEBUG") != "" && !strings.Contains(s, "target stack") {
